@@ -30,7 +30,7 @@ struct Case {
 }
 
 fn source(max_tiles: usize) -> impl Strategy<Value = SrcSpec> {
-	(0usize..3, any::<bool>(), proptest::collection::vec((0u8..3, 0u8..3, mvt::tile(1, 4, 5), any::<u32>()), 1..=max_tiles)).prop_map(|(c, default_stream, tiles)| SrcSpec { comp: Comp::ALL[c], default_stream, tiles })
+	(0usize..3, any::<bool>(), proptest::collection::vec((prop_oneof![2 => Just(0u8), 2 => 0u8..3], prop_oneof![3 => Just(0u8), 2 => 0u8..3], mvt::tile(1, 4, 5), any::<u32>()), 1..=max_tiles)).prop_map(|(c, default_stream, tiles)| SrcSpec { comp: Comp::ALL[c], default_stream, tiles })
 }
 
 fn strategy() -> impl Strategy<Value = Case> {
